@@ -32,6 +32,8 @@ def array_like_param(p) -> bool:
     ann = norm(p.annotation) if p.annotation is not None else ""
     if "ndarray" in ann or "NDArray" in ann:
         return True
+    if "Pair" in ann or p.name.lower().endswith("_pair") or p.name.lower() in ("pair", "processing_pair", "input_pair"):
+        return True  # an object holding the caller's arrays
     n = p.name.lower()
     if ann and not ("ndarray" in ann) and any(t in ann for t in ("int", "str", "bool", "float", "dict", "Path")) and "ndarray" not in ann:
         return False
@@ -42,8 +44,19 @@ class AliasFlow:
     def __init__(self, prog: Program):
         self.prog = prog
         self.summary: dict[str, set[int]] = {}  # func qual -> indices of call params that may be returned
+        self.written: dict[str, dict[int, tuple]] = {}  # func qual -> {param index: (site text, function) of the innermost write}
         self.effects: dict[str, list] = {}
+        self._rc: dict = {}
         self._solve()
+
+    def _resolve(self, f: Func, call: ast.Call) -> list:
+        k = (f.qual, id(call))
+        if k not in self._rc:
+            try:
+                self._rc[k] = list(self.prog.resolve_call(f, call))
+            except Exception:
+                self._rc[k] = []
+        return self._rc[k]
 
     # -- expression: may it evaluate to (a view of) a caller-owned array? ------------------------
     def may_alias(self, f: Func, e: ast.expr, owned: set[str]) -> bool:
@@ -83,10 +96,12 @@ class AliasFlow:
                     return any(self.may_alias(f, a, owned) for a in e.args[:1])
                 return False
             # package callee with a summary
-            try:
-                callees = [c for c in self.prog.resolve_call(f, e) if isinstance(c, Func)]
-            except Exception:
-                callees = []
+            resolved = self._resolve(f, e)
+            callees = [c for c in resolved if isinstance(c, Func)]
+            # building an object from received arrays: the object holds (views of) them
+            is_ctor = any(getattr(c, "name", "") == "__init__" for c in callees) or (isinstance(fn, ast.Call) and dotted(fn.func) == "type")
+            if is_ctor and any(self.may_alias(f, a, owned) for a in list(e.args) + [k.value for k in e.keywords]):
+                return True
             for c in callees:
                 idxs = self.summary.get(c.qual, set())
                 params = c.call_params
@@ -95,6 +110,8 @@ class AliasFlow:
                     if i == -1:
                         if recv is not None and self.may_alias(f, recv, owned):
                             return True
+                        continue
+                    if i < 0:
                         continue
                     if i < len(e.args) and self.may_alias(f, e.args[i], owned):
                         return True
@@ -128,6 +145,7 @@ class AliasFlow:
         if f.self_name:
             owned0.add(f.self_name)  # the object's own arrays are owned by whoever built it
         returned: set[int] = set()
+        wrote: dict[int, tuple] = {}
         pidx = {p.name: i for i, p in enumerate(params)}
 
         def origin(e, owned, origins):
@@ -158,14 +176,44 @@ class AliasFlow:
                         owned.discard(x.id)
                         origins.pop(x.id, None)
 
-        def effect(node, name, how, owned, origins):
-            if collect is not None and name in owned and name != f.self_name:
-                collect.append((node, name, how, sorted(origins.get(name, set()))))
+        def effect(node, name, how, owned, origins, root=None):
+            if name in owned and name != f.self_name:
+                org = sorted(origins.get(name, set()))
+                for i in org:
+                    if i >= 0:
+                        wrote.setdefault(i, root or (f"{f.qual}:{getattr(node, 'lineno', 0)}: {norm(node)[:70]}", f.qual))
+                if collect is not None:
+                    collect.append((node, name, how, org, root))
+
+        def callee_writes(c, owned, origins):
+            """passing a received array into a parameter the callee writes in place"""
+            fn = c.func
+            callees = [x for x in self._resolve(f, c) if isinstance(x, Func)]
+            for g in callees:
+                if g.qual == f.qual:
+                    continue
+                wr = self.written.get(g.qual, {})
+                if not wr:
+                    continue
+                gp = g.call_params
+                for i, root in wr.items():
+                    actual = None
+                    if i < len(c.args) and not any(isinstance(a, ast.Starred) for a in c.args[: i + 1]):
+                        actual = c.args[i]
+                    elif i < len(gp):
+                        actual = next((k.value for k in c.keywords if k.arg == gp[i].name), None)
+                    if actual is None:
+                        continue
+                    if self.may_alias(f, actual, owned):
+                        names = [n.id for n in ast.walk(actual) if isinstance(n, ast.Name) and n.id in owned]
+                        for nm in names[:1]:
+                            effect(c, nm, f"passed to {g.qual} (parameter {gp[i].name if i < len(gp) else i}), which writes it in place", owned, origins, root=root)
 
         def scan_calls(st, owned, origins):
             for c in ast.walk(st):
                 if not isinstance(c, ast.Call):
                     continue
+                callee_writes(c, owned, origins)
                 for k in c.keywords:
                     if k.arg == "out" and isinstance(k.value, ast.Name):
                         effect(c, k.value.id, "out=", owned, origins)
@@ -262,23 +310,39 @@ class AliasFlow:
         if f.self_name:
             origins0[f.self_name] = {-1}
         block(f.node.body, set(owned0), origins0)
+        self._last_wrote = wrote
         return returned
+
+    @staticmethod
+    def is_public(f: Func) -> bool:
+        """A function callers outside the package can hand their own arrays to."""
+        n = f.name
+        return not n.startswith("_") or (n.startswith("__") and n.endswith("__"))
 
     def _solve(self):
         funcs = [f for f in self.prog.functions.values() if f.parent is None]
         for f in funcs:
             self.summary[f.qual] = set()
-        for _ in range(6):
+            self.written[f.qual] = {}
+        for _ in range(8):
             changed = False
             for f in funcs:
                 r = self.run(f)
+                w = dict(self._last_wrote)
                 if r != self.summary[f.qual]:
                     self.summary[f.qual] = r
                     changed = True
+                if set(w) != set(self.written[f.qual]):
+                    self.written[f.qual] = w
+                    changed = True
             if not changed:
                 break
+        # a write into a received array is an effect on the *caller's* data where the receiving
+        # function is public (or the container is module-level state); private helpers that
+        # write into a parameter only pass the obligation on to their callers (summary `written`)
         for f in funcs:
             eff: list = []
             self.run(f, collect=eff)
-            if eff:
-                self.effects[f.qual] = eff
+            keep = [e for e in eff if (-2 in e[3]) or (self.is_public(f) and any(i >= 0 for i in e[3]))]
+            if keep:
+                self.effects[f.qual] = keep
